@@ -34,6 +34,10 @@ def family(rp):
     f.add("field-through-mutable-self", "class A\n    def v: Int := 1\n    def m(self) => self.v := 3", "accept")
     f.add("self-outside-class", "self.v := 3", "reject")
     f.add("self-in-function-outside-class", "def f() => self.v := 3", "reject")
+    f.add("one-branch-shadow-then-reassign-fin", "def fin x := 10\nif x > 5 then\n    def x := 1\n    print(x)\nelse\n    print(\"small\")\nx := 5\nprint(x)\n", "reject")
+    f.add("one-branch-shadow-then-reassign-mutable", "def x := 10\nif x > 5 then\n    def x := 1\n    print(x)\nelse\n    print(\"small\")\nx := 5\nprint(x)\n", "accept")
+    f.add("else-branch-shadow-then-reassign-fin", "def fin x := 10\nif x > 5 then\n    print(\"big\")\nelse\n    def x := 1\n    print(x)\nx := 5\n", "reject")
+    f.add("loop-shadow-then-reassign-fin", "def fin x := 10\nfor i in 0 .. 2 do\n    def x := 1\n    print(x)\nx := 5\n", "reject")
     f.add("shadowed-by-fin", "def x := 1\ndef fin x := 2\nx := 3", "reject")
     f.add("shadowed-by-mutable", "def fin x := 1\ndef x := 2\nx := 3", "accept")
     f.add("reassign-fin-in-branch", "def fin x := 1\nif True then\n    x := 2", "reject")
@@ -225,6 +229,13 @@ def run(run):
             f(run, mir, rp, fam)
         except Unsupported as e:
             run.ob(f.__name__[3:] + "-encoding", "E2", "kernel is encodable").inconclusive(f"unsupported construct: {e}")
+    try:
+        # a mutable re-definition inside a branch or loop body must not shadow an outer `fin` afterwards: the environments
+        # that flow on are the incoming ones (same kernels as C09, replayed with the immutability family)
+        from props import C09
+        C09.ob_flow(run, mir, rp, fam)
+    except Unsupported as e:
+        run.ob("flow-encoding", "E2", "kernel is encodable").inconclusive(f"unsupported construct: {e}")
     if run.clean():
         e2.validate_family(run, fam, "immutability")
     rp.close()
